@@ -2,14 +2,16 @@ module verif/mc
 
 go 1.20
 
-require github.com/gopherjs/gopherjs v0.0.0
+require (
+	github.com/gopherjs/gopherjs v0.0.0
+	github.com/neelance/sourcemap v0.0.0-20200213170602-2833bce08e4c
+)
 
 require (
 	github.com/evanw/esbuild v0.25.4 // indirect
 	github.com/fsnotify/fsnotify v1.5.1 // indirect
 	github.com/msvitok77/goembed v0.3.5 // indirect
 	github.com/neelance/astrewrite v0.0.0-20160511093645-99348263ae86 // indirect
-	github.com/neelance/sourcemap v0.0.0-20200213170602-2833bce08e4c // indirect
 	github.com/sirupsen/logrus v1.8.3 // indirect
 	golang.org/x/sys v0.10.0 // indirect
 	golang.org/x/tools v0.16.0 // indirect
